@@ -130,23 +130,7 @@ fn judge_output(case: &mut Case, b: &Built, out: &[u8], ctx: &str) -> bool {
         spec.class,
         t.desc
     );
-    if scan_geometry_class(spec) {
-        case.violation("dev:scan-geometry", detail);
-        return false;
-    }
-    if matches!(spec.pad, PadMode::Random(_)) {
-        // the same file with every group of padding bits emitted backwards
-        if let Ok(alt) = write_jpeg_opt(spec, true) {
-            if alt.bytes == out {
-                case.violation("dev:padding-bit-order", detail);
-                return false;
-            }
-        }
-    }
-    if quant_order_class(spec) && sof_dqt_ranges(&t.jpeg).iter().any(|&(s, e)| p >= s && p < e) {
-        case.violation("dev:quant-index", detail);
-        return false;
-    }
+    // (three decoder deviations once classified here were repaired: 59bbd2a, 5859320 and the quant-index fix)
     case.violation("mismatch", detail);
     false
 }
@@ -169,10 +153,7 @@ fn status(image: &JxlImage) -> Result<JpegReconstructionStatus, (String, String)
 fn recon_failure(case: &mut Case, b: &Built, what: &str, ctx: &str, panic_loc: Option<&str>) {
     let (spec, t) = (&b.spec, &b.t);
     let detail = format!("{ctx}: {what} [{} | {}]", spec.class, t.desc);
-    if scan_geometry_class(spec) {
-        case.violation("dev:scan-geometry", detail);
-    } else if quant_order_class(spec) && panic_loc.is_none() {
-        case.violation("dev:quant-index", detail);
+    if false {
     } else if let Some(loc) = panic_loc {
         case.violation(format!("panic@{}", loc.trim_start_matches("/repo/")), detail);
     } else {
